@@ -1250,60 +1250,63 @@ impl Actor for NodeSession {
                 }
             }
             // ======== Lifecycle event handlers (PG groups + PID registry) ======== //
-            SupervisionEvent::ProcessGroupChanged(change) => match change {
-                GroupChangeMessage::Join(scope, group, actors) => {
-                    // Group notifications are sent after the group table is unlocked, so the `Join`
-                    // of an actor that exited while it was being joined can arrive after its exit
-                    // `Leave` (and after the `Terminate` of its pid). Announcing such an actor would
-                    // make the peer create a remote actor for it that nothing ever stops: an actor
-                    // that is on its way out has already left all of its groups.
-                    let filtered = actors
-                        .into_iter()
-                        .filter(|act| {
-                            act.supports_remoting()
-                                && act.get_status() < ractor::ActorStatus::Stopping
-                        })
+            SupervisionEvent::ProcessGroupChanged(change) => {
+                // Group notifications are sent after the group table is unlocked, so the
+                // notifications of two racing changes can arrive in the opposite order of their
+                // effects (a `Leave` after the `Join` that undid it, the `Join` of an actor after
+                // the `Leave` and `Terminate` of its exit). Forwarding them as they come would
+                // leave the peer's copy of the group wrong for good, so a notification only says
+                // WHICH actors to look at: what is forwarded is what the table says about them
+                // now. Every change is followed by a notification, so the last one forwarded
+                // reflects the final state.
+                let (scope, group, actors) = match change {
+                    GroupChangeMessage::Join(scope, group, actors)
+                    | GroupChangeMessage::Leave(scope, group, actors) => (scope, group, actors),
+                };
+                let members = get_scoped_local_members(&scope, &group)
+                    .into_iter()
+                    .map(|member| member.get_id())
+                    .collect::<HashSet<_>>();
+                let (joined, left): (Vec<_>, Vec<_>) = actors
+                    .into_iter()
+                    .filter(|act| act.supports_remoting())
+                    // (an actor on its way out is about to leave all of its groups, if it has
+                    // not done so yet, and the `Terminate` of its pid may already be on the wire)
+                    .partition(|act| {
+                        members.contains(&act.get_id())
+                            && act.get_status() < ractor::ActorStatus::Stopping
+                    });
+                let wire = |acts: Vec<ractor::ActorCell>| {
+                    acts.into_iter()
                         .map(|act| control_protocol::Actor {
                             name: act.get_name(),
                             pid: act.get_id().pid(),
                         })
-                        .collect::<Vec<_>>();
-                    if !filtered.is_empty() {
-                        let msg = control_protocol::ControlMessage {
-                            msg: Some(control_protocol::control_message::Msg::PgJoin(
-                                control_protocol::PgJoin {
-                                    scope,
-                                    group,
-                                    actors: filtered,
-                                },
-                            )),
-                        };
-                        state.tcp_send_control(msg);
-                    }
+                        .collect::<Vec<_>>()
+                };
+                if !joined.is_empty() {
+                    state.tcp_send_control(control_protocol::ControlMessage {
+                        msg: Some(control_protocol::control_message::Msg::PgJoin(
+                            control_protocol::PgJoin {
+                                scope: scope.clone(),
+                                group: group.clone(),
+                                actors: wire(joined),
+                            },
+                        )),
+                    });
                 }
-                GroupChangeMessage::Leave(scope, group, actors) => {
-                    let filtered = actors
-                        .into_iter()
-                        .filter(|act| act.supports_remoting())
-                        .map(|act| control_protocol::Actor {
-                            name: act.get_name(),
-                            pid: act.get_id().pid(),
-                        })
-                        .collect::<Vec<_>>();
-                    if !filtered.is_empty() {
-                        let msg = control_protocol::ControlMessage {
-                            msg: Some(control_protocol::control_message::Msg::PgLeave(
-                                control_protocol::PgLeave {
-                                    scope,
-                                    group,
-                                    actors: filtered,
-                                },
-                            )),
-                        };
-                        state.tcp_send_control(msg);
-                    }
+                if !left.is_empty() {
+                    state.tcp_send_control(control_protocol::ControlMessage {
+                        msg: Some(control_protocol::control_message::Msg::PgLeave(
+                            control_protocol::PgLeave {
+                                scope,
+                                group,
+                                actors: wire(left),
+                            },
+                        )),
+                    });
                 }
-            },
+            }
             SupervisionEvent::PidLifecycleEvent(pid) => match pid {
                 PidLifecycleEvent::Spawn(who) => {
                     if who.supports_remoting() {
